@@ -221,6 +221,27 @@ def _convert_returns(stmts, make_assign):
             ast.copy_location(new, s)
             out.append(new)
             return out
+        if isinstance(s, ast.Try) and _contains_return([s]) and not _contains_return(s.finalbody):
+            rest = stmts[i + 1 :]
+            # every way through the try statement must end in a return / raise, or nothing may follow it
+            parts_always = _always_returns(s.body) or (bool(s.orelse) and _always_returns(s.orelse))
+            handlers_always = all(_always_returns(h.body) for h in s.handlers)
+            if rest and not (parts_always and handlers_always):
+                return None
+            nb = _convert_returns(s.body, make_assign) if _contains_return(s.body) else list(s.body)
+            no = _convert_returns(s.orelse, make_assign) if _contains_return(s.orelse) else list(s.orelse)
+            nh = []
+            for h in s.handlers:
+                hb = _convert_returns(h.body, make_assign) if _contains_return(h.body) else list(h.body)
+                if hb is None:
+                    return None
+                nh.append(ast.ExceptHandler(type=h.type, name=h.name, body=hb or [ast.Pass()]))
+            if nb is None or no is None:
+                return None
+            new = ast.Try(body=nb or [ast.Pass()], handlers=nh, orelse=no, finalbody=list(s.finalbody))
+            ast.copy_location(new, s)
+            out.append(new)
+            return out
         if _contains_return([s]):
             return None
         out.append(s)
@@ -359,11 +380,79 @@ def _inline_in_function(prog, fi, is_new, stats):
             return None
         return g
 
+    hoist_counter = [0]
+
+    def hoist_nested(s):
+        """`f(helper(a).m())` -> `_inl1 = helper(a); f(_inl1.m())` for a new multi-statement helper called once, unconditionally,
+        inside a simple statement (no lambda / comprehension / short-circuit / conditional expression on the way)."""
+        if isinstance(s, ast.If):
+            top = s.test
+        elif isinstance(s, (ast.Expr, ast.Assign, ast.Return, ast.AugAssign, ast.AnnAssign)):
+            top = s.value
+        else:
+            return None
+        if top is None or (isinstance(top, ast.Call) and targets_of(top) is not None and isinstance(s, (ast.Expr, ast.Assign, ast.Return))):
+            return None
+        found = []
+        root_ = s if not isinstance(s, ast.If) else ast.Expr(value=s.test)
+        if isinstance(s, ast.If):
+            root_.value.parent = root_
+
+        def walk(n, safe):
+            for c in ast.iter_child_nodes(n):
+                if isinstance(c, (ast.Lambda, ast.ListComp, ast.SetComp, ast.DictComp, ast.GeneratorExp)):
+                    continue
+                # the first operand of and/or and the test of a conditional expression are always evaluated
+                if isinstance(n, ast.BoolOp):
+                    csafe = safe and c is n.values[0]
+                elif isinstance(n, ast.IfExp):
+                    csafe = safe and c is n.test
+                else:
+                    csafe = safe
+                if isinstance(c, ast.Call):
+                    g_ = targets_of(c)
+                    if g_ is not None and _single_return_expr(g_) is None:
+                        found.append((c, n, csafe))
+                walk(c, csafe)
+
+        walk(root_, True)
+        if len(found) != 1 or not found[0][2]:
+            return None
+        call, parent, _ = found[0]
+        if isinstance(s, ast.If) and parent is root_:
+            parent = s  # the call is the whole test
+        hoist_counter[0] += 1
+        tmp = "_inl%d_%s" % (hoist_counter[0], targets_of(call).node.name.strip("_"))
+        while tmp in caller_names:
+            tmp += "_"
+        caller_names.add(tmp)
+        asg = ast.Assign(targets=[ast.Name(id=tmp, ctx=ast.Store())], value=call, type_comment=None)
+        ast.copy_location(asg, s)
+        ref_ = ast.Name(id=tmp, ctx=ast.Load())
+        ast.copy_location(ref_, call)
+        if parent is s and isinstance(s, ast.If):
+            s.test = ref_
+        else:
+            for f in parent._fields:
+                v = getattr(parent, f, None)
+                if v is call:
+                    setattr(parent, f, ref_)
+                elif isinstance(v, list):
+                    for k, x in enumerate(v):
+                        if x is call:
+                            v[k] = ref_
+        ast.fix_missing_locations(asg)
+        return asg
+
     def rewrite_block(stmts):
         nonlocal done
         i = 0
         while i < len(stmts):
             s = stmts[i]
+            pre_ = hoist_nested(s)
+            if pre_ is not None:
+                stmts.insert(i, pre_)
+                s = pre_
             repl = None
             if isinstance(s, ast.Expr) and isinstance(s.value, ast.Call):
                 g = targets_of(s.value)
